@@ -272,6 +272,9 @@ func executeOnce(tr *Trace) (res *core.Result, err error) {
 		e.acctOf[hx(e.kr.Get(i).Addr)] = i
 	}
 	e.m = NewModel(e.kr, &tr.Genesis)
+	if tr.Genesis.MaxGas > 0 {
+		e.m.Desync = "a block gas limit is configured (the model keeps no gas account)"
+	}
 	for i := range tr.Genesis.Balances {
 		e.m.Bal[acctKey(i)] = big.NewInt(tr.Genesis.EffectiveBalance(i))
 	}
@@ -860,6 +863,9 @@ func (e *Exec) deliver(bi, ti int, rec *blockRecord, h int64) {
 		return
 	}
 	d0 := digestDeliver(resp0)
+	if os.Getenv("VERIF_DEBUG") != "" {
+		fmt.Fprintf(os.Stderr, "DEBUG deliver h%d #%d %s acct=%d code=%d cs=%s log=%.300s\n", h, ti, spec.Kind, spec.Acct, resp0.Code, resp0.Codespace, resp0.Log)
+	}
 	e.logf("h%d r0 %s", h, d0)
 	rec.canon = append(rec.canon, d0)
 	e.res.Stats.C("txs", 1)
@@ -878,8 +884,16 @@ func (e *Exec) deliver(bi, ti int, rec *blockRecord, h int64) {
 				stage = "handler"
 			}
 		}
+		dustFee := f.FeeDust != nil && f.FeeDust.Sign() > 0
+		if dustFee && before != nil {
+			// the part of the fee in the second denomination is just as observable
+			fc := moduleAddrHex("fee_collector")
+			if new(big.Int).Sub(dustOf(st, fc), dustOf(before, fc)).Sign() > 0 {
+				stage = "handler"
+			}
+		}
 		// a fee of zero leaves nothing to observe: there the model's verdict on the ante handler decides
-		if f.Fee != nil && f.Fee.Sign() == 0 && !pred.NoClaim && pred.AnteOK && !pred.MustReject {
+		if f.Fee != nil && f.Fee.Sign() == 0 && !dustFee && !pred.NoClaim && pred.AnteOK && !pred.MustReject {
 			stage = "handler"
 		}
 	}
@@ -976,6 +990,13 @@ func (e *Exec) deliver(bi, ti int, rec *blockRecord, h int64) {
 
 func balOf(st *AppState, addrHex string) *big.Int {
 	if b, ok := st.Balances[addrHex]; ok {
+		return b
+	}
+	return new(big.Int)
+}
+
+func dustOf(st *AppState, addrHex string) *big.Int {
+	if b, ok := st.Dust[addrHex]; ok {
 		return b
 	}
 	return new(big.Int)
